@@ -76,54 +76,54 @@ func specMaskPID(j int) byte {
 }
 
 //@ func PayloadUnitStartIndicator(packet *Packet) bool
-//@   props C01
+//@   props C01 C05
 //@   requires packet != nil
 //@   ensures result == specPUSI(packet)
 //@   modifies nothing
 
 //@ func Pid(packet *Packet) int
-//@   props C01
+//@   props C01 C05
 //@   requires packet != nil
 //@   ensures result == specPID(packet)
 //@   modifies nothing
 
 //@ func ContainsPayload(packet *Packet) bool
-//@   props C01
+//@   props C01 C05
 //@   requires packet != nil
 //@   ensures result == (specAFC(packet)%2 == 1)
 //@   modifies nothing
 
 //@ func ContainsAdaptationField(packet *Packet) bool
-//@   props C01
+//@   props C01 C05
 //@   requires packet != nil
 //@   ensures result == (specAFC(packet)/2 == 1)
 //@   modifies nothing
 
 //@ func ContinuityCounter(packet *Packet) uint8
-//@   props C01
+//@   props C01 C05
 //@   requires packet != nil
 //@   ensures int(result) == specCC(packet)
 //@   modifies nothing
 
 //@ func IsNull(packet *Packet) bool
-//@   props C01
+//@   props C01 C05
 //@   requires packet != nil
 //@   ensures result == (specPID(packet) == 8191)
 //@   modifies nothing
 
 //@ func IsPat(packet *Packet) bool
-//@   props C01
+//@   props C01 C05
 //@   requires packet != nil
 //@   ensures result == (specPID(packet) == 0)
 //@   modifies nothing
 
 //@ func increment4BitInt(cc uint8) uint8
-//@   props C01
+//@   props C01 C05
 //@   ensures int(result) == (int(cc)+1)%16
 //@   modifies nothing
 
 //@ func IncrementCC(packet *Packet) *Packet
-//@   props C01
+//@   props C01 C05
 //@   requires packet != nil
 //@   ensures result != nil && fresh(result)
 //@   ensures specCC(result) == (specCC(packet)+1)%16
@@ -132,7 +132,7 @@ func specMaskPID(j int) byte {
 //@   modifies nothing
 
 //@ func ZeroCC(packet *Packet) *Packet
-//@   props C01
+//@   props C01 C05
 //@   requires packet != nil
 //@   ensures result != nil && fresh(result)
 //@   ensures specCC(result) == 0
@@ -141,7 +141,7 @@ func specMaskPID(j int) byte {
 //@   modifies nothing
 
 //@ func SetCC(packet *Packet, newCC uint8) *Packet
-//@   props C01
+//@   props C01 C05
 //@   requires packet != nil
 //@   ensures result != nil && fresh(result)
 //@   ensures newCC <= 15 ==> specCC(result) == int(newCC)
@@ -150,24 +150,24 @@ func specMaskPID(j int) byte {
 //@   modifies nothing
 
 //@ func Equal(a *Packet, b *Packet) bool
-//@   props C01
+//@   props C01 C05
 //@   ensures result == (a == b || (a != nil && b != nil && forall j in 0..188 :: a[j] == b[j]))
 //@   modifies nothing
 
 //@ func (p *Packet) Equals(r *Packet) bool
-//@   props C01
+//@   props C01 C05
 //@   ensures result == (p == r || (p != nil && r != nil && forall j in 0..188 :: p[j] == r[j]))
 //@   modifies nothing
 
 //@ func New() *Packet
-//@   props C01
+//@   props C01 C05
 //@   ensures result != nil && fresh(result)
 //@   ensures result[0] == 0x47 && specPID(result) == 8191 && result[3] == 0x10 && !specTEI(result) && !specPUSI(result) && !specPrio(result)
 //@   ensures forall j in 4..188 :: result[j] == 0
 //@   modifies nothing
 
 //@ func FromBytes(bytes []byte) (pkt *Packet, err error)
-//@   props C01
+//@   props C01 C05
 //@   ensures len(bytes) != 188 ==> pkt == nil && err == gots.ErrInvalidPacketLength
 //@   ensures len(bytes) == 188 ==> pkt != nil && fresh(pkt) && forall j in 0..188 :: pkt[j] == bytes[j]
 //@   ensures len(bytes) == 188 ==> (err != nil) == (bytes[0] != 0x47 || bytes[3]>>6 == 1 || (bytes[3]>>4)%4 == 0)
@@ -187,96 +187,96 @@ func specMaskPID(j int) byte {
 //@   modifies nothing
 
 //@ func (p *Packet) syncByte() byte
-//@   props C01
+//@   props C01 C05
 //@   requires p != nil
 //@   ensures result == p[0]
 //@   modifies nothing
 
 //@ func (p *Packet) SetTransportErrorIndicator(value bool)
-//@   props C01
+//@   props C01 C05
 //@   requires p != nil
 //@   ensures specTEI(p) == value
 //@   ensures forall j in 0..188 :: specSame(p, old(*p), j, specOnly(1, 0x80, j))
 //@   modifies p[1..2]
 
 //@ func (p *Packet) TransportErrorIndicator() bool
-//@   props C01
+//@   props C01 C05
 //@   requires p != nil
 //@   ensures result == specTEI(p)
 //@   modifies nothing
 
 //@ func (p *Packet) SetPayloadUnitStartIndicator(value bool)
-//@   props C01
+//@   props C01 C05
 //@   requires p != nil
 //@   ensures specPUSI(p) == value
 //@   ensures forall j in 0..188 :: specSame(p, old(*p), j, specOnly(1, 0x40, j))
 //@   modifies p[1..2]
 
 //@ func (p *Packet) PayloadUnitStartIndicator() bool
-//@   props C01
+//@   props C01 C05
 //@   requires p != nil
 //@   ensures result == specPUSI(p)
 //@   modifies nothing
 
 //@ func (p *Packet) SetTransportPriority(value bool)
-//@   props C01
+//@   props C01 C05
 //@   requires p != nil
 //@   ensures specPrio(p) == value
 //@   ensures forall j in 0..188 :: specSame(p, old(*p), j, specOnly(1, 0x20, j))
 //@   modifies p[1..2]
 
 //@ func (p *Packet) TransportPriority() bool
-//@   props C01
+//@   props C01 C05
 //@   requires p != nil
 //@   ensures result == specPrio(p)
 //@   modifies nothing
 
 //@ func (p *Packet) SetPID(pid int)
-//@   props C01
+//@   props C01 C05
 //@   requires p != nil
 //@   ensures 0 <= pid && pid <= 8191 ==> specPID(p) == pid
 //@   ensures forall j in 0..188 :: specSame(p, old(*p), j, specMaskPID(j))
 //@   modifies p[1..3]
 
 //@ func (p *Packet) PID() int
-//@   props C01
+//@   props C01 C05
 //@   requires p != nil
 //@   ensures result == specPID(p)
 //@   modifies nothing
 
 //@ func (p *Packet) SetTransportScramblingControl(value TransportScramblingControlOptions)
-//@   props C01
+//@   props C01 C05
 //@   requires p != nil
 //@   ensures value <= 3 ==> specTSC(p) == byte(value)
 //@   ensures forall j in 0..188 :: specSame(p, old(*p), j, specOnly(3, 0xc0, j))
 //@   modifies p[3..4]
 
 //@ func (p *Packet) TransportScramblingControl() TransportScramblingControlOptions
-//@   props C01
+//@   props C01 C05
 //@   requires p != nil
 //@   ensures byte(result) == specTSC(p)
 //@   modifies nothing
 
 //@ func (p *Packet) AdaptationFieldControl() AdaptationFieldControlOptions
-//@   props C01
+//@   props C01 C05
 //@   requires p != nil
 //@   ensures byte(result) == specAFC(p)
 //@   modifies nothing
 
 //@ func (p *Packet) HasPayload() bool
-//@   props C01
+//@   props C01 C05
 //@   requires p != nil
 //@   ensures result == (specAFC(p)%2 == 1)
 //@   modifies nothing
 
 //@ func (p *Packet) HasAdaptationField() bool
-//@   props C01
+//@   props C01 C05
 //@   requires p != nil
 //@   ensures result == (specAFC(p)/2 == 1)
 //@   modifies nothing
 
 //@ func (p *Packet) SetContinuityCounter(value int)
-//@   props C01
+//@   props C01 C05
 //@   requires p != nil
 //@   ensures 0 <= value && value <= 15 ==> specCC(p) == value
 //@   ensures specCC(p) == int(uint64(value)%16)
@@ -284,39 +284,39 @@ func specMaskPID(j int) byte {
 //@   modifies p[3..4]
 
 //@ func (p *Packet) ContinuityCounter() int
-//@   props C01
+//@   props C01 C05
 //@   requires p != nil
 //@   ensures result == specCC(p)
 //@   modifies nothing
 
 //@ func (p *Packet) ZeroContinuityCounter()
-//@   props C01
+//@   props C01 C05
 //@   requires p != nil
 //@   ensures specCC(p) == 0
 //@   ensures forall j in 0..188 :: specSame(p, old(*p), j, specOnly(3, 0x0f, j))
 //@   modifies p[3..4]
 
 //@ func (p *Packet) IncContinuityCounter()
-//@   props C01
+//@   props C01 C05
 //@   requires p != nil
 //@   ensures specCC(p) == (old(specCC(p))+1)%16
 //@   ensures forall j in 0..188 :: specSame(p, old(*p), j, specOnly(3, 0x0f, j))
 //@   modifies p[3..4]
 
 //@ func (p *Packet) IsNull() bool
-//@   props C01
+//@   props C01 C05
 //@   requires p != nil
 //@   ensures result == (specPID(p) == 8191)
 //@   modifies nothing
 
 //@ func (p *Packet) IsPAT() bool
-//@   props C01
+//@   props C01 C05
 //@   requires p != nil
 //@   ensures result == (specPID(p) == 0)
 //@   modifies nothing
 
 //@ func (p *Packet) CheckErrors() error
-//@   props C01
+//@   props C01 C05
 //@   requires p != nil
 //@   ensures p[0] != 0x47 ==> result == gots.ErrBadSyncByte
 //@   ensures p[0] == 0x47 && specTSC(p) == 1 ==> result == gots.ErrInvalidTSCFlag
@@ -436,31 +436,31 @@ func afMin(a, b int) int {
 //@ transparent AdaptationField.adaptationExtensionLength AdaptationField.adaptationExtensionStart
 
 //@ func (af *AdaptationField) stuffingStart() int
-//@   props C02 C03
+//@   props C02 C03 C05
 //@   requires af != nil
 //@   ensures result == afContentEnd(af)
 //@   modifies nothing
 
 //@ func (af *AdaptationField) stuffingEnd() int
-//@   props C02 C03
+//@   props C02 C03 C05
 //@   requires af != nil
 //@   ensures result == afMin(afEnd(af), 188)
 //@   modifies nothing
 
 //@ func (af *AdaptationField) setLength(length int)
-//@   props C02 C03
+//@   props C02 C03 C05
 //@   requires af != nil
 //@   ensures af[4] == byte(length)
 //@   modifies af[4..5]
 
 //@ func (af *AdaptationField) Length() int
-//@   props C02 C03
+//@   props C02 C03 C05
 //@   requires af != nil
 //@   ensures result == int(af[4])
 //@   modifies nothing
 
 //@ func (af *AdaptationField) stuffAF()
-//@   props C02 C03
+//@   props C02 C03 C05
 //@   requires af != nil
 //@   ensures afStuffed(af, old(afContentEnd(af)), old(afMin(afEnd(af), 188)))
 //@   ensures afSameOutside(af, old(*af), old(afContentEnd(af)), old(afMin(afEnd(af), 188)))
@@ -474,7 +474,7 @@ func afMin(a, b int) int {
 //@     decreases 188 - i
 
 //@ func initAdaptationField(p *Packet)
-//@   props C02
+//@   props C02 C05
 //@   requires p != nil
 //@   ensures p[4] == 183 && p[5] == 0
 //@   ensures forall j in 6..188 :: p[j] == 0xff
@@ -564,13 +564,13 @@ func specHdrLen(p *Packet) int {
 }
 
 //@ func payloadStart(packet *Packet) int
-//@   props C02
+//@   props C02 C05
 //@   requires packet != nil
 //@   ensures result == specHdrLen(packet)
 //@   modifies nothing
 
 //@ func (p *Packet) payloadStart() int
-//@   props C02
+//@   props C02 C05
 //@   requires p != nil
 //@   ensures result == specHdrLen(p)
 //@   modifies nothing
@@ -582,7 +582,7 @@ func specHdrLen(p *Packet) int {
 //@   modifies nothing
 
 //@ func Payload(packet *Packet) (pay []byte, err error)
-//@   props C02
+//@   props C02 C05
 //@   requires packet != nil
 //@   ensures specAFC(packet)%2 == 0 ==> pay == nil && err == gots.ErrNoPayload
 //@   ensures specAFC(packet)%2 == 1 && specHdrLen(packet) > 188 ==> pay == nil && err == gots.ErrInvalidPacketLength
@@ -599,14 +599,14 @@ func specHdrLen(p *Packet) int {
 //@   modifies nothing
 
 //@ func (p *Packet) AdaptationField() (af *AdaptationField, err error)
-//@   props C02 C03
+//@   props C02 C03 C05
 //@   requires p != nil
 //@   ensures specAFC(p)/2 == 1 ==> af == (*AdaptationField)(p) && err == nil
 //@   ensures specAFC(p)/2 == 0 ==> af == nil && err == gots.ErrNoAdaptationField
 //@   modifies nothing
 
 //@ func (p *Packet) stuffingStart() int
-//@   props C02
+//@   props C02 C05
 //@   requires p != nil
 //@   ensures specAFC(p)/2 == 0 ==> result == 4
 //@   ensures specAFC(p)/2 == 1 && p[4] == 0 ==> result == 5
@@ -614,7 +614,7 @@ func specHdrLen(p *Packet) int {
 //@   modifies nothing
 
 //@ func (p *Packet) freeSpace() int
-//@   props C02
+//@   props C02 C05
 //@   requires p != nil
 //@   ensures specAFC(p)/2 == 0 ==> result == 184
 //@   ensures specAFC(p)/2 == 1 && p[4] == 0 ==> result == 183
@@ -781,7 +781,7 @@ func afFits(old AdaptationField, grow int) bool { return afContentEnd(&old)+grow
 // ---- flag-only setters and their getters
 
 //@ func (af *AdaptationField) SetDiscontinuity(value bool) error
-//@   props C03
+//@   props C03 C05
 //@   requires af != nil
 //@   ensures old(afValid(af)) ==> result == nil
 //@   ensures !old(afValid(af)) ==> result != nil && afSame(af, old(*af))
@@ -790,14 +790,14 @@ func afFits(old AdaptationField, grow int) bool { return afContentEnd(&old)+grow
 //@   modifies af[5..6]
 
 //@ func (af *AdaptationField) Discontinuity() (v bool, err error)
-//@   props C03
+//@   props C03 C05
 //@   requires af != nil
 //@   ensures afValid(af) ==> err == nil && v == (af[5]/128 == 1)
 //@   ensures !afValid(af) ==> err != nil && !v
 //@   modifies nothing
 
 //@ func (af *AdaptationField) SetRandomAccess(value bool) error
-//@   props C03
+//@   props C03 C05
 //@   requires af != nil
 //@   ensures old(afValid(af)) ==> result == nil
 //@   ensures !old(afValid(af)) ==> result != nil && afSame(af, old(*af))
@@ -806,14 +806,14 @@ func afFits(old AdaptationField, grow int) bool { return afContentEnd(&old)+grow
 //@   modifies af[5..6]
 
 //@ func (af *AdaptationField) RandomAccess() (v bool, err error)
-//@   props C03
+//@   props C03 C05
 //@   requires af != nil
 //@   ensures afValid(af) ==> err == nil && v == ((af[5]/64)%2 == 1)
 //@   ensures !afValid(af) ==> err != nil && !v
 //@   modifies nothing
 
 //@ func (af *AdaptationField) SetElementaryStreamPriority(value bool) error
-//@   props C03
+//@   props C03 C05
 //@   requires af != nil
 //@   ensures old(afValid(af)) ==> result == nil
 //@   ensures !old(afValid(af)) ==> result != nil && afSame(af, old(*af))
@@ -822,7 +822,7 @@ func afFits(old AdaptationField, grow int) bool { return afContentEnd(&old)+grow
 //@   modifies af[5..6]
 
 //@ func (af *AdaptationField) ElementaryStreamPriority() (v bool, err error)
-//@   props C03
+//@   props C03 C05
 //@   requires af != nil
 //@   ensures afValid(af) ==> err == nil && v == ((af[5]/32)%2 == 1)
 //@   ensures !afValid(af) ==> err != nil && !v
@@ -844,7 +844,7 @@ func afFits(old AdaptationField, grow int) bool { return afContentEnd(&old)+grow
 //@   modifies *af
 
 //@ func (af *AdaptationField) HasPCR() (v bool, err error)
-//@   props C03
+//@   props C03 C05
 //@   requires af != nil
 //@   ensures afValid(af) ==> err == nil && v == afFlag(af, 0x10)
 //@   ensures !afValid(af) ==> err != nil && !v
@@ -864,7 +864,7 @@ func afFits(old AdaptationField, grow int) bool { return afContentEnd(&old)+grow
 //@   modifies *af
 
 //@ func (af *AdaptationField) HasOPCR() (v bool, err error)
-//@   props C03
+//@   props C03 C05
 //@   requires af != nil
 //@   ensures afValid(af) ==> err == nil && v == afFlag(af, 0x08)
 //@   ensures !afValid(af) ==> err != nil && !v
@@ -884,7 +884,7 @@ func afFits(old AdaptationField, grow int) bool { return afContentEnd(&old)+grow
 //@   modifies *af
 
 //@ func (af *AdaptationField) HasSplicingPoint() (v bool, err error)
-//@   props C03
+//@   props C03 C05
 //@   requires af != nil
 //@   ensures afValid(af) ==> err == nil && v == afFlag(af, 0x04)
 //@   ensures !afValid(af) ==> err != nil && !v
@@ -994,7 +994,7 @@ func afVarSetByte(old AdaptationField, at, n int, data []byte, j int) byte {
 //@   modifies *af
 
 //@ func (af *AdaptationField) HasTransportPrivateData() (v bool, err error)
-//@   props C03
+//@   props C03 C05
 //@   requires af != nil
 //@   ensures afValid(af) ==> err == nil && v == afFlag(af, 0x02)
 //@   ensures !afValid(af) ==> err != nil && !v
@@ -1034,7 +1034,7 @@ func afVarSetByte(old AdaptationField, at, n int, data []byte, j int) byte {
 //@   modifies *af
 
 //@ func (af *AdaptationField) HasAdaptationFieldExtension() (v bool, err error)
-//@   props C03
+//@   props C03 C05
 //@   requires af != nil
 //@   ensures afValid(af) ==> err == nil && v == afFlag(af, 0x01)
 //@   ensures !afValid(af) ==> err != nil && !v
@@ -1087,7 +1087,7 @@ func afCopiedByte(dst AdaptationField, src AdaptationField, j int) byte {
 //@   modifies *p
 
 //@ func NewAdaptationField() *AdaptationField
-//@   props C03
+//@   props C03 C05
 //@   ensures result != nil && fresh(result)
 //@   ensures result[0] == 0x47 && result[3] == 0x20 && result[4] == 183 && result[5] == 0 && afCanonical(result)
 //@   modifies nothing
@@ -1095,7 +1095,7 @@ func afCopiedByte(dst AdaptationField, src AdaptationField, j int) byte {
 // ---------------------------------------------------------------- C11: PES header bytes of a packet
 
 //@ func PESHeader(packet *Packet) (pay []byte, err error)
-//@   props C11
+//@   props C11 C05
 //@   requires packet != nil
 //@   ensures (err == nil) == (specPUSI(packet) && specAFC(packet)%2 == 1 && specHdrLen(packet)+4 <= 188 && packet[specHdrLen(packet)] == 0 && packet[specHdrLen(packet)+1] == 0 && packet[specHdrLen(packet)+2] == 1)
 //@   ensures err == nil ==> len(pay) == 188-specHdrLen(packet) && &pay[0] == &packet[specHdrLen(packet)]
